@@ -223,7 +223,9 @@ def make_pair(net, variant, rng):
         # both runs: target 19700 joins at step j. Run B only: another satellite carried the id 19700 from the start and was
         # removed at step i < j. From step j on the truth of 19700 depends only on the dynamics and the state it joined with.
         start = datetime.fromisoformat(net["start"])
-        i_rm = rng.randrange(1, max(2, n - 2))
+        # the first satellite must have been propagated at least once before it is removed (step >= 2), and the newcomer must be
+        # stepped at least once after it joined
+        i_rm = rng.randrange(2, max(3, n - 1))
         j_add = rng.randrange(i_rm + 1, max(i_rm + 2, n))
         r1, v1 = sk.circ_state(8300.0, 63.0, 40.0, 100.0)
         add = {"scope": "scenario_step", "scope_instance_id": 0, "start_time": sk.iso(start + timedelta(seconds=net["step"] * j_add)),
@@ -384,7 +386,7 @@ def run(ctx):
                 net = netkit.gen_network(rng, policies=("MunkresDecision", "MyopicNaiveGreedyDecision", "RandomDecision"), max_sensors=3, max_targets=4)
                 net.update(keep)
         if variant in ("id_reused_after_removal", "same_timed_burn_on_other_agent", "split_calls"):
-            net["nsteps"] = max(net["nsteps"], 4)
+            net["nsteps"] = max(net["nsteps"], 5 if variant == "id_reused_after_removal" else 4)
         if variant == "filter_model":
             # agents built after the estimates (spacecraft-hosted sensors, agents added by events) are the ones that
             # could inherit filter settings: make sure this variant always has some
